@@ -134,9 +134,12 @@ pub fn resolve_in(fs: &Fs, current_file: &str, spec: &str) -> Option<String> {
             (".js", &[".ts", ".tsx", ".d.ts"][..]),
             (".jsx", &[".tsx", ".d.ts"][..]),
             (".mjs", &[".mts", ".d.mts"][..]),
-            (".d.ts", &[".d.ts"][..]),
-            (".ts", &[".ts"][..]),
-            (".tsx", &[".tsx"][..]),
+            // an explicit TypeScript extension is stripped and the usual candidates are tried in
+            // their usual order (seen with the real resolver, js/hostprobe.mjs)
+            // (the file named as written comes first)
+            (".d.ts", &[".d.ts", ".ts", ".tsx"][..]),
+            (".ts", &[".ts", ".tsx", ".d.ts"][..]),
+            (".tsx", &[".tsx", ".ts", ".d.ts"][..]),
         ] {
             if let Some(stem) = base.strip_suffix(from) {
                 for to in tos {
@@ -179,6 +182,32 @@ pub struct HostState {
     pub fired_read_error: u64,
     pub fired_resolve_error: u64,
     pub fired_enoent: u64,
+    /// bundler.ts keeps every positive answer of resolve_import for the life of the Node process
+    /// (`resolvedCache`); mirrored here when the host probe (js/hostprobe.mjs) saw the working
+    /// tree's host behave that way.  A simulated process starts with an empty cache.
+    pub js_positive_cache: Option<BTreeMap<(String, String), String>>,
+    pub js_cache_hits_that_differ_from_disk: u64,
+}
+
+/// What the host probe learned about the JavaScript host of the working tree.
+#[derive(serde::Deserialize, Default, Clone, Debug)]
+pub struct HostModel {
+    #[serde(default)]
+    pub characterised: bool,
+    #[serde(default)]
+    pub positive_resolution_cache: bool,
+    #[serde(default)]
+    pub negative_resolution_cache: bool,
+}
+pub fn host_model() -> &'static HostModel {
+    static M: std::sync::OnceLock<HostModel> = std::sync::OnceLock::new();
+    M.get_or_init(|| {
+        let p = format!("{}/out/host_model.json", std::env::var("VERIF_HOME").unwrap_or_else(|_| "/verif".into()));
+        std::fs::read_to_string(p).ok().and_then(|s| serde_json::from_str(&s).ok()).unwrap_or_default()
+    })
+}
+pub fn new_host_state(fs: Fs) -> HostState {
+    HostState { fs, js_positive_cache: if host_model().positive_resolution_cache { Some(BTreeMap::new()) } else { None }, ..Default::default() }
 }
 
 impl HostState {
@@ -224,6 +253,14 @@ impl Host for SimHost {
     fn resolve_import(&mut self, current_file: &str, specifier: &str) -> Option<String> {
         let mut st = self.0.borrow_mut();
         st.n_resolves += 1;
+        let key = (current_file.to_string(), specifier.to_string());
+        if let Some(hit) = st.js_positive_cache.as_ref().and_then(|c| c.get(&key)).cloned() {
+            if resolve_in(&st.fs, current_file, specifier).as_ref() != Some(&hit) {
+                st.js_cache_hits_that_differ_from_disk += 1;
+            }
+            st.resolve_log.entry(key).or_insert_with(|| Some(hit.clone()));
+            return Some(hit);
+        }
         let truth = resolve_in(&st.fs, current_file, specifier);
         let r = if st.resolve_fault.contains(current_file) && truth.is_some() {
             st.fired_resolve_error += 1;
@@ -237,6 +274,9 @@ impl Host for SimHost {
         st.resolve_log
             .entry((current_file.to_string(), specifier.to_string()))
             .or_insert_with(|| r.clone());
+        if let (Some(ans), Some(cache)) = (r.clone(), st.js_positive_cache.as_mut()) {
+            cache.insert(key, ans);
+        }
         r
     }
     fn emit_diagnostic(&mut self, json: String) {
